@@ -227,7 +227,7 @@ DeliverKill(w, rest) ==
 DeliverEvt(c) ==
   IF fwait[c] # NoJob /\ job[fwait[c]].done
   THEN /\ fwait' = [fwait EXCEPT ![c] = NoJob]
-       /\ id2job' = IF job[fwait[c]].drop
+       /\ id2job' = IF job[fwait[c]].drop /\ id2job[job[fwait[c]].id] = fwait[c]   \* forget only THIS job
                     THEN [id2job EXCEPT ![job[fwait[c]].id] = NoJob] ELSE id2job
   ELSE UNCHANGED <<fwait, id2job>>
 
